@@ -1,4 +1,4 @@
 SPECIFICATION Spec
-CONSTANTS MaxOps = 11 MaxNp = 2 MaxNd = 2 Bug = "none" ZoomAuto = FALSE
+CONSTANTS MaxOps = 7 MaxNp = 2 MaxNd = 2 Bug = "none" ZoomAuto = FALSE
 INVARIANTS InvValid InvReads InvSetter InvErr InvSetUp
 CHECK_DEADLOCK FALSE
